@@ -55,7 +55,10 @@ def handle (j : Json) : Json :=
     let op ← jstr j "op"
     match op with
     | "file" =>
-      let lines ← fstrs j "lines"
+      -- the file text (`src`: the model splits it into lines itself) or, for legacy variants, the lines
+      let lines ← match fstr j "src" with
+        | .ok src => pure (splitlines src)
+        | .error _ => fstrs j "lines"
       let qs ← jarr j "q"
       let rs ← qs.toList.mapM (query lines)
       pure (Json.mkObj [("ok", Json.arr rs.toArray),
@@ -67,8 +70,10 @@ def handle (j : Json) : Json :=
       pure (Json.mkObj [("prefix", strToJson (assistPrefix isWord line)),
                         ("generic", strToJson (prefixOf isWord line)),
                         ("spec", strToJson (identSuffix isWord line)),
-                        ("branch", Json.bool (fromBranch line)),
-                        ("frompkg", strToJson (fromPackage line)),
+                        ("branch", Json.bool (fromMatch isWord line).isSome),
+                        ("frompkg", strToJson (match fromMatch isWord line with | some m => fromPackageOf m | none => [])),
+                        ("legacybranch", Json.bool (fromBranchLegacy line)),
+                        ("legacyfrom", strToJson (assistPrefixLegacy isWord line)),
                         ("legacy", strToJson (prefixOfLegacy line))])
     | "unmark" =>
       let s ← fstr j "s"
@@ -81,11 +86,15 @@ def handle (j : Json) : Json :=
       let a ← fstr j "a"
       let b ← fstr j "b"
       pure (Json.mkObj [("ok", strToJson (joinPkg a b))])
+    | "splitlines" =>
+      let src ← fstr j "s"
+      pure (Json.mkObj [("ok", Json.arr ((splitlines src).map strToJson).toArray),
+                        ("legacy", Json.arr ((splitlinesLegacy src).map strToJson).toArray)])
     | "mark" =>
-      let lines ← fstrs j "lines"
+      let src ← fstr j "src"
       let ln ← jnat j "ln"
       let col ← jnat j "col"
-      match markLines lines ln col with
+      match markSource src ln col with
       | .ok ls => pure (Json.mkObj [("ok", Json.arr (ls.map strToJson).toArray), ("source", strToJson (joinNl ls))])
       | .error .indexError => pure (Json.mkObj [("err", Json.str "IndexError")])
     | "location_entry" =>
